@@ -101,6 +101,16 @@ func runProperty(prop, tier string, timeoutS int) *checkResult {
 		return res
 	}
 	keys := contractsForProp(CS, prop)
+	if only := os.Getenv("GOVC_ONLY"); only != "" {
+		// development aid: restrict the run to contracts whose key contains the substring (never used by registered commands)
+		var ks []string
+		for _, k := range keys {
+			if strings.Contains(k, only) {
+				ks = append(ks, k)
+			}
+		}
+		keys = ks
+	}
 	pkgSet := map[string]bool{}
 	for _, k := range keys {
 		pkgSet[CS.Funcs[k].Pkg] = true
@@ -491,6 +501,29 @@ func cmdReplay(args []string) {
 	var rep map[string]interface{}
 	json.Unmarshal(data, &rep)
 	fmt.Printf("property=%v obligation=%v\nreason=%v\nsource=%v\ndescription=%v\n", rep["property"], rep["obligation"], rep["reason"], rep["source"], rep["description"])
+	// a recorded counterexample: run it again on the current tree of /repo
+	if rp, ok := rep["replay"].(map[string]interface{}); ok {
+		if src, _ := rp["test"].(string); src != "" {
+			pkgDir, _ := rp["pkg_dir"].(string)
+			expect, _ := rp["expect"].(string)
+			noSafety, _ := rp["no_safety"].(bool)
+			tf := filepath.Join(scratchDir("replay"), "again_replay_test.go")
+			out := runReplayTest(src, pkgDir, repoDir(), tf)
+			lines, ran, confirmed := replayOutcome(out, expect, noSafety)
+			os.Remove(tf)
+			fmt.Println(strings.Join(lines, "\n"))
+			if !ran {
+				fmt.Println("replay test did not run:\n" + firstLines(out, 30))
+				os.Exit(2)
+			}
+			if confirmed {
+				fmt.Println("the recorded input still fails on the current tree")
+				os.Exit(1)
+			}
+			fmt.Println("the recorded input no longer fails on the current tree")
+			return
+		}
+	}
 	if q, ok := rep["query"].(string); ok {
 		r := solveRace(q, 30, true)
 		fmt.Printf("re-run of %s: verdict=%s solver=%s all=%v\n", q, r.Verdict, r.Solver, r.All)
